@@ -58,10 +58,12 @@ signals += [meth("fired"), meth("firedWith", ("int", "QString")),
             meth("amb", ("int",)), meth("amb", ("QString",)),
             meth("tri"), meth("tri", ("int",)), meth("tri", ("QString",)),
             meth("chain3"), meth("chain3", ("int",)), meth("chain3", ("int", "QString"))]
-slots = [meth("done", ("int",)), meth("say", ("QString",)), meth("take", ("VObj*",)), meth("act"),
+slots = [meth("opt"), meth("opt", ("int",)), meth("opt2", ("int",)), meth("opt2", ("int", "QString")),    # slots with default-argument variants
+         meth("done", ("int",)), meth("say", ("QString",)), meth("take", ("VObj*",)), meth("act"),
          meth("sayBool", ("bool",)), meth("sayDouble", ("double",)), meth("sayUint", ("uint",)),
          meth("sayMode", ("VObj::Mode",)), meth("sayList", ("QStringList",))]
-methods = [meth("twice", ("int",), "int"), meth("echo", ("QString",), "QString")]
+methods = [meth("calc"), meth("calc", ("int",)),      # invokable with a default-argument variant
+           meth("twice", ("int",), "int"), meth("echo", ("QString",), "QString")]
 enums = [
     {"isClass": False, "isFlag": False, "name": "Mode", "values": ["M0", "M1", "M2"]},
     {"isClass": False, "isFlag": False, "name": "Mode2", "values": ["N0", "N1"]},
